@@ -354,6 +354,22 @@ theorem preview_depth_one (cfg : Cfg) (hextra : ∀ r ∈ cfg.extra, r.kind = .r
     serveHTTP cfg (f + 2) req = serveHTTP cfg 2 req ∧ (serveHTTP cfg (f + 2) req).status ≠ 508 :=
   ⟨serveHTTP_depth cfg hextra f req, serveHTTP_never_exhausted cfg hextra f req⟩
 
+/-- STATED, not proved (checked by the driver on every observed request, clause `served-resource-below-api`):
+whatever is served or written was authorised as a resource BELOW "/api" — `APIResource("../x")` leaves the API
+subtree, but the mux never lets such a URL path reach a route handler. Missing: the split/drop lemmas relating
+the elements of `TrimPrefix(path, BasePath)` to those of the clean URL path, and the pattern shapes of added routes. -/
+def served_resource_below_api_stmt : Prop :=
+  ∀ (cfg : Cfg), (∀ r ∈ cfg.extra, r.kind = .recorder ∧ r.bypass = false ∧ (base ++ ['/']).isPrefixOf r.pattern = true) →
+  ∀ (fuel : Nat) (req : Req),
+    ((serveHTTP cfg fuel req).served = true ∨ (serveHTTP cfg fuel req).wrote = true) →
+    ∃ names, nodeOf (apiResource (trimPrefix req.path Gen.basePath)) = some ("api".toList :: names)
+
+/-- … while the function by itself does leave the subtree (so the mux's redirect is load-bearing). -/
+theorem api_resource_can_escape :
+    apiResource "../database/x".toList = "/database/x".toList ∧ muxCleanPath "/kapacitor/v1/../database/x".toList ≠ "/kapacitor/v1/../database/x".toList ∧
+    apiResource (trimPrefix "/kapacitor/v1..".toList Gen.basePath) = "/".toList ∧ muxCleanPath "/kapacitor/v1..".toList = "/kapacitor/v1..".toList := by
+  decide
+
 /-! ### Database resources -/
 
 /-- FULL statement of the last clause (stated, not provable: it is false of the code). -/
